@@ -23,6 +23,8 @@ class Extract:
         self.nth = None
         self.as_sig = None
         self.cells = []
+        self.cells_at = []      # (recv, [fields])
+        self.cellalias = []     # (name, path, field)
         self.tracing = False
         self.panics = 'obligation'
         self.cfg = 'debug'
@@ -106,6 +108,12 @@ def parse(template_text):
                             ex.as_sig = v
                         elif k == 'cells':
                             ex.cells = [x.strip() for x in v.split(',') if x.strip()]
+                        elif k.startswith('cells@'):
+                            ex.cells_at.append((k[6:].strip(), [x.strip() for x in v.split(',') if x.strip()]))
+                        elif k == 'cellalias':
+                            nm, _, path = v.partition('=')
+                            path = path.strip()
+                            ex.cellalias.append((nm.strip(), path.rsplit('.', 1)[0], path.rsplit('.', 1)[1]))
                         elif k == 'tracing':
                             ex.tracing = v in ('yes', 'true', '1', '')
                         elif k == 'panics':
@@ -222,6 +230,12 @@ def expand_extract(ex, canary=False):
     if ex.cells:
         text, n = rules.r5_cells(text, ex.cells)
         fired.append('R5 cells(%s) x%d' % (','.join(ex.cells), n))
+    for (nm, path, field) in ex.cellalias:
+        text, n = rules.r5_alias(text, nm, path, field)
+        fired.append('R5 alias %s = %s.%s x%d' % (nm, path, field, n))
+    for (recv, flds) in ex.cells_at:
+        text, n = rules.r5_cells(text, flds, recv)
+        fired.append('R5 cells@%s(%s) x%d' % (recv, ','.join(flds), n))
     mode = ex.panics
     text, n = rules.r6_panics(text, mode, ex.cfg)
     if n:
